@@ -158,3 +158,20 @@ Theorem c17_tie_partition_pick : forall p m md r ps e0,
   fst (route p m md r) = rout_of_pick (DecC17.partition_pick e0 (m_partition m) ps (pick_choice o) (pick_err o)).
 Proof. exact tie_partition_pick. Qed.
 Print Assumptions c17_tie_partition_pick.
+
+(* the writable set of the model is the regenerated filter loop of setPartitionCache: "leaderless" = the partition's metadata
+   carries LEADER_NOT_AVAILABLE; any other partition-level error leaves it writable *)
+Theorem c17_tie_writable_parts : forall l : list (Z * Z),
+  writable_parts (map flag_of_err l) = isort (fst (DecC17.writable_filter [] 1 l)).
+Proof. exact tie_writable_parts. Qed.
+Print Assumptions c17_tie_writable_parts.
+
+Theorem c17_tie_all_parts : forall l : list (Z * Z),
+  all_parts (map flag_of_err l) = isort (fst (DecC17.writable_filter [] 0 l)).
+Proof. exact tie_all_parts. Qed.
+Print Assumptions c17_tie_all_parts.
+
+Theorem c17_writable_iff_leader_available : forall (l : list (Z * Z)) p,
+  In p (fst (DecC17.writable_filter [] 1 l)) <-> exists e, In (p, e) l /\ e <> 5.
+Proof. exact writable_iff_leader_available. Qed.
+Print Assumptions c17_writable_iff_leader_available.
